@@ -86,3 +86,9 @@ def _v32(repo, mod):
     fn = repo.func(B, "MutationOperator._generic_visit_list")
     lp = find_stmt(fn, lambda s: isinstance(s, ast.For) and "enumerate" in norm(s.iter))
     return replace_node(mod, lp.iter, "enumerate(tuple(old_value))")
+
+
+@variant("C28", "write-back-skipped-when-unchanged", "pynguin.assertion.mutation_analysis.operators.base", "C28.splice", "the previous mutant's replacement stays spliced in (seed C28-e)")
+def _v50(repo, mod):
+    from sa.selftest.harness import text_edit
+    return text_edit(mod, "                setattr(node, field, mutated_node)\n                yield", "                if mutated_node is not old_value:\n                    setattr(node, field, mutated_node)\n                yield")
